@@ -105,6 +105,14 @@ func (n *decoratorNode) Call(s containerStore) (err error) {
 	}
 
 	n.state = decoratorOnStack
+	defer func() {
+		// A decorator that did not run to completion (missing or failed
+		// dependencies, an error, a panic) must be tried again the next
+		// time it is needed instead of being skipped as "on the stack".
+		if n.state != decoratorCalled {
+			n.state = decoratorReady
+		}
+	}()
 
 	if err := shallowCheckDependencies(s, n.params); err != nil {
 		return errMissingDependencies{
